@@ -421,6 +421,9 @@ func streamChan(o *Out, r *rand.Rand, n int, thorough bool) {
 		{"iface-nil-items-recv", "c = make(chan interface, 6)\nfor v in [1, nil, 2] {\nc <- v\n}\nr = []\nfor i = 0; i < 3; i++ {\nx = <-c\nif x == nil {\nr += \"none\"\n} else {\nr += x * 10\n}\n}\nr", "[10,none,20]"},
 		{"iface-nil-items-pipeline", "a = make(chan interface)\nb = make(chan interface)\ngo func() {\nfor v in [1, nil, 2, 3, nil, 4] {\na <- v\n}\nclose(a)\n}()\ngo func() {\nfor x in a {\nif x == nil {\nb <- nil\n} else {\nb <- x * 10\n}\n}\nclose(b)\n}()\nr = []\nfor y in b {\nr += (y == nil ? \"none\" : y)\n}\nr", "[10,none,20,30,none,40]"},
 		{"iface-nil-items-recv-ok", "c = make(chan interface, 2)\nc <- nil\nclose(c)\nv = 5\nv, ok = <-c\nw = 6\nw, ok2 = <-c\n[v == nil, ok, w, ok2]", "[true,true,6,false]"},
+		// the variable of a for-in over a channel is the loop's own: a variable of that name outside keeps its value
+		{"for-in-variable-is-local", "v = 7\nc = make(chan int64, 2)\nc <- 1\nc <- 2\nclose(c)\ns = 0\nfor v in c {\ns += v\n}\n[v, s]", "[7,3]"},
+		{"for-in-variable-is-local-in-stages", "v = -1\nok = false\nc1 = make(chan int64)\nc2 = make(chan int64, 2)\ngo func() {\nfor i = 0; i < 200; i++ {\nc1 <- i\n}\nclose(c1)\n}()\ngo func() {\nfor v in c1 {\nc2 <- v + 1000\n}\nclose(c2)\n}()\nbad = 0\nn = 0\nfor {\nv, ok = <- c2\nif !ok {\nbreak\n}\nif v != 1000 + n {\nbad++\n}\nn++\n}\n[n, bad]", "[200,0]"},
 		{"unbuffered-handoff", "c = make(chan int64)\nd = make(chan int64)\ngo func() {\nfor x in c {\nd <- x + 1\n}\nclose(d)\n}()\ngo func() {\nc <- 1\nc <- 2\nclose(c)\n}()\nr = []\nfor y in d {\nr += y\n}\nr", "[2,3]"},
 	}
 	for _, t := range templates {
